@@ -407,7 +407,14 @@ class Cache(Filter[Iterable[Any], Iterable[Any]]):
 
         yield from self._cache
         items = self._iter
-        while current := list(islice(self._iter,n_slice)):
+        while True:
+            try:
+                current = list(islice(self._iter,n_slice))
+            except:
+                #the source failed part-way so we forget what we have in order for the next read to start over
+                self._iter,self._cache = None,None
+                raise
+            if not current: break
             self._cache.extend(current)
             yield from current
         self._iter = None
